@@ -12,7 +12,11 @@ import traceback
 
 sys.path.insert(0, os.path.dirname(os.path.dirname(os.path.abspath(__file__))))
 os.environ.setdefault("SHEXER_VERIF", "1")
-os.environ.setdefault("PYTHONHASHSEED", "0")
+if "PYTHONHASHSEED" not in os.environ:
+    # string hashing is fixed when the interpreter starts: start again with a fixed seed, so that a run (and the replay of what it
+    # found) sees rdflib's sets - the order in which an rdflib-parsed graph is read back - in the same order every time
+    os.environ["PYTHONHASHSEED"] = "0"
+    os.execv(sys.executable, [sys.executable] + sys.argv)
 
 from harness import common, tlc
 
